@@ -391,6 +391,40 @@ pub fn random_lines(rng: &mut Rng) -> Vec<String> {
     let profile = rng.below(PROFILES.len() as u64) as usize;
     let set = gen_set(rng, profile, 8);
     let mut v: Vec<String> = set.into_iter().map(|s| s.replace('\n', "N")).collect();
+    // decorations a command line or a text file may carry around a test case: blanks, quotes, option-like or
+    // path-like prefixes, separators, regex meta characters, a lone hyphen among the items
+    if rng.chance(1, 3) {
+        const DECOR: &[&str] = &[
+            " ", "  ", "\t", "-", "--", "'", "\"", ",", ";", "#", "\\", "~", "$X", "%", "*", "?", "[", "]", "(", ")", "{", "}", "|", "^", "$", ".", "+", "=", ":", "/", "@",
+            "\u{feff}", "\u{a0}", "\u{200b}",
+        ];
+        let how = rng.below(4);
+        for x in v.iter_mut() {
+            if rng.chance(1, 2) {
+                let d = *rng.pick(DECOR);
+                match how {
+                    0 => x.push_str(d),
+                    1 => x.insert_str(0, d),
+                    2 => {
+                        x.insert_str(0, d);
+                        x.push_str(d)
+                    }
+                    _ => {
+                        let mid = x.char_indices().nth(x.chars().count() / 2).map(|(i, _)| i).unwrap_or(0);
+                        x.insert_str(mid, d)
+                    }
+                }
+            }
+        }
+        if rng.chance(1, 6) {
+            let pos = rng.below(v.len() as u64 + 1) as usize;
+            v.insert(pos, "-".to_string());
+        }
+        if rng.chance(1, 8) {
+            let pos = rng.below(v.len() as u64 + 1) as usize;
+            v.insert(pos, String::new());
+        }
+    }
     // a presentation: order and duplicates are the caller's
     if rng.chance(1, 3) {
         let x = rng.pick(&v).clone();
